@@ -177,6 +177,60 @@ pub fn key_sets(g: &mut G) -> Vec<(String, Vec<Vec<u8>>)> {
         let m = g.rng.below(n2);
         sets.push((format!("x{}", m), subset(&u2, m)));
     }
+    // long keys: around the sizes of internal buffers and counters (64, 128, 256, 4096), pairs that
+    // differ early / late, proper prefixes, and long shared suffixes under distinct heads
+    {
+        let body = |l: usize, salt: usize| -> Vec<u8> { (0..l).map(|i| b'a' + ((i * 7 + i / 13 + salt) % 5) as u8).collect() };
+        let mut k129: Vec<Vec<u8>> = vec![];
+        for l in [63usize, 64, 65, 127, 128, 129, 130, 200, 255, 256, 257, 300] {
+            let mut k = body(l, 0);
+            k129.push(k.clone());
+            // differs at byte 10, at byte 100 (if long enough) and in the last byte
+            let mut k2 = k.clone();
+            k2[10] = b'z';
+            k129.push(k2);
+            if l > 100 {
+                let mut k3 = k.clone();
+                k3[100] = b'y';
+                k129.push(k3);
+            }
+            let m = k.len() - 1;
+            k[m] = b'z';
+            k129.push(k);
+        }
+        k129.sort();
+        k129.dedup();
+        sets.push(("long129".to_string(), k129));
+        let mut k4k: Vec<Vec<u8>> = vec![];
+        let base = body(5000, 1);
+        for l in [4095usize, 4096, 4097, 4098, 5000] {
+            k4k.push(base[..l].to_vec());
+            let mut k = base[..l].to_vec();
+            k.push(b'!');
+            k4k.push(k);
+        }
+        let mut other = body(4200, 2);
+        other[0] = b'b';
+        k4k.push(other.clone());
+        other[4150] = b'q';
+        k4k.push(other);
+        k4k.sort();
+        k4k.dedup();
+        sets.push(("long4097".to_string(), k4k));
+        // suffix sharing over 60..200 bytes
+        let mut suf: Vec<Vec<u8>> = vec![];
+        for (h, l) in [(b"ba", 60usize), (b"bb", 64), (b"bc", 65), (b"bd", 66), (b"be", 100), (b"bf", 200)] {
+            for head in [b'a', b'c', b'e'] {
+                let mut k = vec![head];
+                k.extend_from_slice(&h[..]);
+                k.extend(body(l, 3));
+                suf.push(k);
+            }
+        }
+        suf.sort();
+        suf.dedup();
+        sets.push(("sufshare".to_string(), suf));
+    }
     // fan-out ladder
     for &n in &FANOUTS {
         for &common in &[true, false] {
